@@ -242,7 +242,7 @@ class DenseEncoding(Encoding):
         return self._data[indices]
 
     def gather_nd(self, indices):
-        return self._data[tuple(indices.T)]
+        return self._data[tuple(np.asanyarray(indices).T)]
 
     def mask(self, mask):
         return self._data[mask if isinstance(mask, np.ndarray) else mask.dense]
@@ -374,7 +374,7 @@ class SparseEncoding(Encoding):
         return np.column_stack(np.unravel_index(flat_indices, self.shape))
 
     def gather_nd(self, indices):
-        mat = self._csc[self._flat_indices(indices)].todense()
+        mat = self._csc[self._flat_indices(np.asanyarray(indices))].todense()
         # mat is a np matrix, which stays rank 2 after squeeze
         # np.asarray changes this to a standard rank 2 array.
         return np.asarray(mat).squeeze(axis=-1)
@@ -706,7 +706,7 @@ class LazyIndexMap(Encoding):
         return self._data.sparse_values
 
     def gather_nd(self, indices):
-        return self._data.gather_nd(self._to_base_indices(indices))
+        return self._data.gather_nd(self._to_base_indices(np.asanyarray(indices)))
 
     def get_value(self, index):
         index = np.reshape(np.asanyarray(index), (1, -1))
